@@ -419,6 +419,16 @@ sink_thread_proc(void)
 struct thread_entry sink_thread_entry = { sink_thread_proc };
 
 
+#ifdef KJN_LBZIP2_VERIF
+/* Verification hook H2: scheduler events for the harness (no-op by default). */
+__attribute__((weak)) void
+verif_event(const char *name)
+{
+  (void)name;
+}
+#endif
+
+
 static void
 select_task(void)
 {
@@ -444,6 +454,9 @@ worker_thread_proc(void)
   for (;;) {
     while (next_task != NULL) {
       Trace(("worker[%2u]: scheduling task '%s'...", id, next_task->name));
+#ifdef KJN_LBZIP2_VERIF
+      verif_event(next_task->name);
+#endif
       next_task->run();
       select_task();
     }
